@@ -643,6 +643,10 @@ class ExprMixin:
             v = g(self.as_addr(obj), self.to_val(idx))
             self.closed(v)
             return self.from_val(v)
+        if self.in_spec and obj.k == "val" and self.tag(obj) == "none":
+            # None[...] inside a pure expression that is evaluated branch-free (`x is None or x[k]`): the
+            # operand is never used when x is None; total in clauses: an arbitrary value
+            return TV("val", core.fresh("nosub", Val))
         raise Unsupported(f"subscript on value without hint ({h!r}) line {getattr(n,'lineno','?')}")
 
     def user_getitem(self, obj, idx, n):
